@@ -572,6 +572,9 @@ def _run(D, pid, cfg, tier, seed, replay, W, t0):
     if not_met:
         print("[driver] note: %d listed findings were not encountered in this run (their inputs are outside this tier's domain or no longer fail)" % not_met)
     wall = time.time() - t0
+    if ev == 0 and not violations and not infra and not replay:
+        # vacuity guard: e.g. every program of C15 discarded because the tree's parquetgen generated nothing for the source structs
+        infra.append("no case was evaluated (every generated program or input was discarded): the property was not examined")
     cov = {"evaluations": ev, "distinct_nontrivial": distinct, "rule": cfg["rule"], "samples": samples,
            "class_histogram": dict(sorted(labels.items())), "replayed_regression_inputs": replayed,
            "rapid_checks_requested": requested, "rapid_checks_completed": completed,
